@@ -95,6 +95,11 @@ def run(c, facts, tier):
     c.decided = ["blank kinds and amounts between words", "-a/-and/implicit, -o/-or", "redundant parentheses with or without inner blanks", "quoting style", "empty input ≡ -true"]
     blank = peg.named_set("multispace")
     alts = kw.alternatives(g, tokfn)
+    # redundant parentheses turn a leading option into a misplaced one (`-threads 4 -depth` / `-threads 4 ( -depth )`): that the
+    # options come out the same is what the C13 rules decide about the two passes
+    from .. import report as _rep6
+
+    _rep6.require(c, facts, "c13", "C06.parens", inner, "options inside redundant parentheses are registered like leading ones", lambda o: o["rule"] in ("C13.misplaced", "C13.last-wins", "C13.leading", "C13.total"), "an option written inside (redundant) parentheses goes through the misplaced-option pass; identical options for both spellings is decided by the C13 rules")
 
     # ------------------------------------------------------------ C06.blank-set (i): separators
     seps = []  # (site, description, node)
